@@ -12,7 +12,7 @@ PRESENT_PROOF = """proof {
 UNIT = Unit(
     name="confirm", lemma_obs=['lemma_present_monotone', 'lemma_present', 'lemma_two_thirds'],
     prelude=["core.rs", "raw.rs", "iter.rs", "crypto.rs", "state_abs.rs"],
-    lemmas=["sums.rs", "coinsview.rs", "stakes.rs", "confirm.rs", "tips.rs", "header.rs", "seal_opaque.rs"],
+    lemmas=["sums.rs", "coinsview.rs", "stakes.rs", "confirm.rs", "tips.rs", "header.rs", "txroot_opaque.rs", "seal_opaque.rs"],
     items=[
         TypeItem(S, "struct", "UnsealedState"),
         TypeItem(S, "struct", "SealedState", subst=[("(UnsealedState<C>, Option<ProposerAction>)", "(pub UnsealedState<C>, pub Option<ProposerAction>)")]),
